@@ -488,7 +488,7 @@ func Run(o *corr.Out) {
 			nPairs = 8
 		}
 		if o.Thorough {
-			nPairs = len(pairs)
+			nPairs = 150
 		}
 		fixed := [][][]string{{{"s1", "G"}, {"s2", "g"}}, {{"w", "E"}, {"s1", "s2"}}, {{"g", "s1"}, {"s2", "w"}}}
 		if isChan {
@@ -500,7 +500,7 @@ func Run(o *corr.Out) {
 			countCase(o, isChan, progs, enumerate(o, isChan, progs, name+":2x2", 0))
 		}
 		for _, idx := range o.Rand.Perm(len(pairs)) {
-			if len(seen) >= nPairs+len(fixed) && !o.Thorough {
+			if len(seen) >= nPairs+len(fixed) {
 				break
 			}
 			progs := pairs[idx]
@@ -513,7 +513,7 @@ func Run(o *corr.Out) {
 		// (C) random walks: 2-3 goroutines x 1-3 operations, goroutines may block on the mutex
 		nWalk := 700
 		if o.Thorough {
-			nWalk = 30000
+			nWalk = 10000
 		}
 		for i := 0; i < nWalk; i++ {
 			ng := 2 + o.Rand.Intn(2)
